@@ -99,6 +99,12 @@ func main() {
 	switch *stream {
 	case "engine":
 		sum, err = streamEngine(*seed, *n, *driver, *corpus, *dump, *variant)
+	case "path":
+		sum, err = streamPath(*seed, *n, *driver)
+	case "msg":
+		sum, err = streamMsg(*seed, *driver)
+	case "preds":
+		sum, err = streamPreds(*seed, *n, *driver, "")
 	case "coerce":
 		sum, err = streamCoerce(*seed, *n, *driver)
 	case "order":
